@@ -17,7 +17,7 @@ func init() {
 	Registry["C14"] = Spec{
 		Fn:          c14,
 		Level:       "exploration",
-		Rule:        "operation histories over the alphabet {append 1 B, append forcing reallocation, append 0 B, ChainWrite(empty), ChainWrite(3 B), Flush ok, Flush failing after 0 / half / all-1 bytes} enumerated exhaustively up to length 6 (quick) / 8 (thorough), plus seeded random histories up to 200 ops with sizes up to 1 MiB, each run in lock-step with a list model against a recording sink; chained caller slices are poisoned after every flush; plus WriteColumn+Flush == EncodeColumn for every catalogue column and WriteBlock+Flush == EncodeBlock for catalogue and random-composition blocks of 0 (with columns), 1, 3, 9 and 130 rows at every block revision. Non-trivial = history with >=1 ChainWrite between two buffer appends and >=1 flush; distinct = history",
+		Rule:        "operation histories over the alphabet {append 1 B, append forcing reallocation, append 0 B, ChainWrite(empty), ChainWrite(3 B), Flush ok, Flush failing after 0 / half / all-1 bytes, Reset (drop what is pending)} enumerated exhaustively up to length 6 (quick) / 8 (thorough), plus seeded random histories up to 200 ops with sizes up to 1 MiB, each run in lock-step with a list model against a recording sink; chained caller slices are poisoned after every flush; plus WriteColumn+Flush == EncodeColumn for every catalogue column and WriteBlock+Flush == EncodeBlock for catalogue and random-composition blocks of 0 (with columns), 1, 3, 9 and 130 rows at every block revision. Non-trivial = history with >=1 ChainWrite between two buffer appends and >=1 flush; distinct = history",
 		Assumptions: []string{"sink writers are plain io.Writers (net.Buffers.WriteTo falls back to sequential Write calls)"},
 		MinDistinct: 1000,
 		Exhaustive:  func(tier string) bool { return true },
@@ -122,7 +122,7 @@ func (c *c14Runner) flush(budget int) string {
 	return ""
 }
 
-const c14Symbols = 9
+const c14Symbols = 10
 
 func c14Apply(c *c14Runner, op int, big int) string {
 	switch op {
@@ -148,6 +148,18 @@ func c14Apply(c *c14Runner, op int, big int) string {
 			n = 0
 		}
 		return c.flush(n)
+	case 9:
+		// Reset discards everything appended or chained since the last flush (the client uses it
+		// to drop the unsent part of a failed query)
+		c.w.Reset()
+		for _, b := range c.chained {
+			for i := range b {
+				b[i] = 0xEE
+			}
+		}
+		c.chained = c.chained[:0]
+		c.pending = c.pending[:0]
+		c.afterCW = false
 	}
 	return ""
 }
@@ -180,7 +192,7 @@ func c14History(r *core.Run, ops []int, sizes []int) {
 			fail(i, msg)
 			return
 		}
-		if op >= 5 {
+		if op >= 5 && op <= 8 {
 			flushes++
 		}
 	}
@@ -223,7 +235,7 @@ func c14(r *core.Run) {
 			r.Eval()
 			c14History(r, ops, nil)
 			if h == total/3 {
-				r.Sample(map[string]any{"history": append([]int(nil), ops...), "alphabet": "0=append1 1=append-realloc 2=append0 3=chain-empty 4=chain3 5=flush-ok 6=flush-fail@0 7=flush-fail@half 8=flush-fail@all-1"})
+				r.Sample(map[string]any{"history": append([]int(nil), ops...), "alphabet": "0=append1 1=append-realloc 2=append0 3=chain-empty 4=chain3 5=flush-ok 6=flush-fail@0 7=flush-fail@half 8=flush-fail@all-1 9=Reset"})
 			}
 		}
 		r.SetAdd("exhaustive_lengths", fmt.Sprint(L))
